@@ -242,6 +242,57 @@ def ob_public(ctx, pads, N):
                    sample=lambda m: {'pad': pad, 'content': model_bytes(m, content)})
 
 
+class PeekStream(SymStream):
+    """a buffered binary stream as io.BufferedReader presents itself: read(n) is exact, and there is a peek(n) that
+    'may return fewer or more bytes than requested' (io documentation) -- how many is a solver-independent choice of
+    the exploration, recorded for the replay"""
+
+    def __init__(self, data, ctx):
+        SymStream.__init__(self, data)
+        self._ctx = ctx
+        self.peeks = []
+
+    def peek(self, n=0):
+        self._chk()
+        avail = max(0, len(self.el) - self.pos)
+        if avail == 0:
+            self.peeks.append(0)
+            return b''
+        n = int(n) if n else 1
+        opts = sorted({1, 2, max(1, n - 1), n, n + 3, max(1, n // 2)})
+        k = min(avail, self._ctx.pick('peek%d' % len(self.peeks), opts))
+        self.peeks.append(k)
+        return mk_seq(self.el[self.pos:self.pos + k], bytes)
+
+
+def ob_peekable(ctx, pads, N):
+    """the stream offers peek() (files opened with open(), sys.stdin.buffer, gzip ...): if the reader uses it, whatever
+    amounts peek returns, the records are those of the document"""
+    from pydiffx.reader import DiffXReader
+    pad = ctx.pick('pad', pads)
+    n = ctx.choose(1, N, 'n')
+    content = sym_bytes(ctx, 'c', n)
+    el = lift(content).el
+    for e in el[:-1]:
+        ctx.assume(z3.And(e != 10, e != 13))
+    ctx.assume(el[-1] == 10)
+    pre, post = _file(pad, el)
+    data = mk_seq(tuple(pre) + tuple(el) + tuple(post), bytes)
+    st = PeekStream(data, ctx)
+    wit = lambda m: {'data': model_bytes(m, data), 'k': None, 'content': model_bytes(m, content), 'pad': pad,
+                     'peeks': list(st.peeks)}
+    try:
+        recs = list(DiffXReader(st))
+    except PathTimeout:
+        return viol('nontermination', wit(ctx.model()))
+    except Exception as e:
+        return viol('raised:%s' % type(e).__name__, wit(ctx.model()))
+    if [r['section'] for r in recs] != ['diffx', '.change', '..file', '...meta', '...diff', '..file', '...meta']:
+        return viol('records', wit(ctx.model()))
+    return verdict(ctx, [('diff-content', lift(content).eq_cond(recs[4].get('diff')))], witness=wit,
+                   sample=lambda m: {'pad': pad, 'peeks': list(st.peeks)[:6]})
+
+
 def ob_offset(ctx, offsets, N):
     """the stream handed to the reader is already positioned past k bytes of other data (a DiffX document embedded
     in a larger stream): records must be those of the document"""
@@ -304,6 +355,11 @@ def obligations(tier):
                   desc='public iterator with the implementation\'s own block size; first header padded through every '
                        'alignment in the stated range; diff content symbolic',
                   bounds={'pad': [pads[0], pads[-1]], 'content_len': [1, 3 if quick else 4]}))
+    ppads = [0, 3, 60, 80, 90] if quick else [0, 1, 2, 3, 30, 60, 70, 80, 85, 90, 95, 100, 180]
+    obs.append(Ob('reader[peekable stream]', ob_peekable, dict(pads=ppads, N=2), must_reach=['DiffXReader.iter_sections'],
+                  path_timeout=8, max_paths=200000,
+                  desc='the stream also offers peek() returning fewer / more bytes than asked (each amount an explored '
+                       'choice); vacuous branching if the reader never peeks', bounds={'pad': ppads, 'content_len': [1, 2]}))
     offs = [0, 1, 2, 3, 17, 95, 96, 97, 150] if quick else list(range(0, 40)) + [95, 96, 97, 191, 192, 193, 500]
     obs.append(Ob('reader[pre-positioned stream]', ob_offset, dict(offsets=offs, N=2 if quick else 3),
                   must_reach=['DiffXReader.iter_sections'], path_timeout=8,
@@ -386,7 +442,19 @@ def replay(ob, label, w):
             bad = 'eof flag %r' % (eof,)
         return {'violated': bad is not None, 'signature': 'read_until:post', 'detail': '%s for %r' % (bad, w)}
     data = w['data']
-    stream = io.BytesIO(data)
+    if w.get('peeks') is not None:
+        class ScriptedPeek(io.BytesIO):
+            script = list(w['peeks'])
+
+            def peek(self, n=0):
+                k = self.script.pop(0) if self.script else (n or 1)
+                pos = self.tell()
+                out = self.read(k)
+                self.seek(pos)
+                return out
+        stream = ScriptedPeek(data)
+    else:
+        stream = io.BytesIO(data)
     stream.seek(w.get('offset') or 0)
     rd = DiffXReader(stream)
     try:
